@@ -4,6 +4,7 @@ use std::collections::{BTreeMap, BTreeSet};
 use std::fmt::Write as _;
 use std::path::{Path, PathBuf};
 
+pub mod provider;
 pub mod sched;
 
 // ---------------------------------------------------------------- PRNG
@@ -45,6 +46,19 @@ pub struct Args {
     pub out: PathBuf,
     pub replay: Option<PathBuf>,
     pub extra: BTreeMap<String, String>,
+}
+impl Args {
+    /// root of the rip checkout the harness was built against (default: ../../repo from the crate)
+    pub fn repo(&self) -> PathBuf {
+        self.extra.get("repo").map(PathBuf::from).unwrap_or_else(|| PathBuf::from("/repo"))
+    }
+    /// `--oracle-only 1`: failing-input search mode (skip the Coq case files)
+    pub fn oracle_only(&self) -> bool {
+        self.extra.get("oracle-only").map(|v| v == "1").unwrap_or(false)
+    }
+    pub fn thorough(&self) -> bool {
+        self.tier == "thorough"
+    }
 }
 pub fn parse_args() -> Args {
     let mut seed = 1u64;
